@@ -26,6 +26,16 @@ def run(chk, tier):
             ok = len(d) == 1 and strip(d[0].data[2][0]) == ('param', 0, 1)
             r = p.outcome[1]
             okr = is_call(strip(r), r'Result::map$') and mentions(r, lambda x: x[0] == 'call' and x[3] == d[0].data[3]) if d else False
+            if d and not okr:
+                # `clause.deconstruct(&mut assembler)?; Ok(assembler)`: the error is handed on, success yields the assembler that was filled
+                from props import evalcore as E
+                lab = E.ret_label(p)
+                sr = strip(r)
+                if lab.startswith('Err:propagated(deconstruct'):
+                    okr = True
+                elif sr[0] == 'agg' and sr[3] == 'Ok' and sr[4]:
+                    pay = sr[4][0][1]
+                    okr = pay[0] == 'havoc' and len(pay) > 3 and pay[3].endswith('deconstruct') and strip(pay)[0] == 'agg' and strip(pay)[2] == 'assemble::MockAssembler'
             chk.ob('R14.3', 'try_from_clause deconstructs the whole clause into a fresh assembler and propagates its error', ok and okr, config=cfg, fn=tfc, site='try_from_clause', what='try_from_clause %s' % show(r)[:100], found=show(r)[:200])
         L.clone_and_ctor(chk, F, 'R14.3.ctor', cfg)
         # K7: bounds of the quantifier methods
